@@ -228,7 +228,7 @@ class C12(Scenario):
                     if rng.random() < 0.7:
                         # constructors execute few UFL lines, algorithms many
                         hi = 4.5 if "algorithms" in str(qop[2]) or "sim.ops" in str(qop[2]) or "derivative" in str(qop[2]) else 1.7
-                        u["op"] = ["fault", "interrupt", int(10 ** rng.uniform(0, hi)), qop]
+                        u["op"] = ["fault", rng.choice(["interrupt", "interrupt", "memerr"]), int(10 ** rng.uniform(0, hi)), qop]
                     else:
                         u["op"] = ["fault", "stack", rng.choice([4, 8, 15, 30, 60, 120]), qop]
                 pos = 0 if prelude else rng.randint(0, npos)
@@ -420,7 +420,7 @@ class C12(Scenario):
         tags = xp["tags"]
         nodes = plan["nodes"]
         res = {}  # obs unit -> list of (node, pass, result)
-        faults = {"interrupt": {"configured": 0, "fired": 0}, "stack": {"configured": 0, "fired": 0}}
+        faults = {"interrupt": {"configured": 0, "fired": 0}, "memerr": {"configured": 0, "fired": 0}, "stack": {"configured": 0, "fired": 0}}
         probes = {"noise_ops": 0, "noise_aborted_naturally": 0, "torn_tables_after_stack_fault": 0, "obs_total": 0, "obs_on_perturbed_node": 0, "again_builds": 0, "program_op_failed_somewhere": 0, "restarts": 0, "restart_incomplete": 0}
         torn = set()
         incomplete = set()
